@@ -64,6 +64,15 @@ def dispatch_scenario(rng: random.Random, *, family=None, with_invalid=True, sto
         for j, p, m in accepted:
             lines.append(f"disp {j} {p} {m}")
         lines.append("snap")
+    if replay and rng.random() < 0.5:
+        # one more episode with a DIFFERENT history, nothing read until it is complete
+        lines.append("reset")
+        tr.reset()
+        while not tr.done():
+            j, p, m = gen_valid = gen.gen_valid_request(rng, tr, rng.choice(["uniform", "last_job_first"]))
+            tr.take(j)
+            lines.append(f"disp {j} {p} {m}")
+        lines += ["q makespan", "q num_scheduled", "snap"]
     meta = {"family": family, "filter": "none" if f is None else "+".join(f) or "empty-composite",
             "style": style, "flexible": gen.is_flexible(jobs), "zero_dur": gen.has_zero(jobs),
             "accepted": len(accepted), "invalid": n_invalid, "complete": len(accepted) == total,
